@@ -87,6 +87,13 @@ Definition the_node (k : thekind) (i : nat) (po : Z) : node :=
   | TSystem => Accessor po (Leaf KLocal (assoc_or name SYSTEM_PROPERTIES) po true) name
   end.
 
+(* a property addressed by name: attached to its runtime object when the decompiler's table knows one *)
+Definition the_name_node (name : string) (po : Z) : node :=
+  match assoc_str name ASSIGN_KNOWN_PROPERTIES with
+  | Some o => Accessor po (Leaf KLocal o po true) name
+  | None => Leaf KPropName name po true
+  end.
+
 Inductive expr :=
 | EInt (n : Z)                      (* inline integer: zero, one-byte or two-byte form *)
 | EConst (k : nat)                  (* k-th constant of the pool (string, 32-bit integer, float) *)
@@ -101,7 +108,9 @@ Inductive expr :=
 | EPList (items : list expr)               (* key, value, key, value, ... *)
 | EObj (f : ofam) (pid : nat) (a : expr)   (* the <property number pid> of <sound / sprite / cast> a *)
 | EMenu (pid : nat) (item menu : expr)     (* the <property number pid> of menuItem item of menu menu *)
-| EThe (k : thekind) (i : nat).            (* the <i-th special property / date-time function / system property> *)
+| EThe (k : thekind) (i : nat)             (* the <i-th special property / date-time function / system property> *)
+| ETheN (n : nat)                          (* the <names[n]>: a property addressed by name (5F n) *)
+| EAcc (n : nat) (a : expr).               (* the <names[n]> of a (61 n) *)
 
 Definition b (z : Z) : byte := byte_of_Z z.
 
@@ -140,6 +149,8 @@ Fixpoint compile_e (e : expr) : bytes :=
   | EObj f pid x => compile_e x ++ compile_int (Z.of_nat pid) ++ [b 92; b (fcode f)]
   | EMenu pid it mn => compile_e it ++ compile_e mn ++ compile_int (Z.of_nat pid) ++ [b 92; b 3]
   | EThe k i => compile_int (the_num k i) ++ [b 92; b (the_code k)]
+  | ETheN n => [b 95; b (Z.of_nat n)]
+  | EAcc n x => compile_e x ++ [b 97; b (Z.of_nat n)]
   end.
 
 (* number of instructions *)
@@ -150,6 +161,8 @@ Fixpoint ninstr (e : expr) : nat :=
   | EObj _ _ x => ninstr x + 2
   | EMenu _ it mn => ninstr it + (ninstr mn + 2)
   | EThe _ _ => 2
+  | ETheN _ => 1
+  | EAcc _ x => ninstr x + 1
   | ECall _ args | ELCall _ args => fold_right (fun x a => ninstr x + a) 0 args + 2
   | EList items | EPList items => fold_right (fun x a => ninstr x + a) 0 items + 2
   | _ => 1
@@ -208,6 +221,8 @@ Fixpoint reify_e (en : env) (pc : Z) (e : expr) {struct e} : node :=
     let i := reify_e en pc it in let mnode := reify_e en pm mn in
     Accessor po (MenuItemAcc po (ObjRef KMenu (name_of mnode) po mnode) (ObjRef KMenuItem (name_of i) po i)) (nth pid MENUITEM_PROPERTIES "")
   | EThe k i => the_node k i (pc + zlen (compile_int (the_num k i)))
+  | ETheN n => the_name_node (nm en n) pc
+  | EAcc n x => Accessor (pc + zlen (compile_e x)) (reify_e en pc x) (nm en n)
   end.
 
 Fixpoint reify_args (en : env) (pc : Z) (l : list expr) : list node * Z :=
@@ -227,7 +242,7 @@ Fixpoint globals_e (en : env) (pc : Z) (e : expr) {struct e} : list node :=
   match e with
   | EGlob n => [Leaf KGlobal (nm en n) pc true]
   | EBin _ x y => globals_e en pc x ++ globals_e en (pc + zlen (compile_e x)) y
-  | ENeg x | ENot x | EObj _ _ x => globals_e en pc x
+  | ENeg x | ENot x | EObj _ _ x | EAcc _ x => globals_e en pc x
   | EMenu _ it mn => globals_e en pc it ++ globals_e en (pc + zlen (compile_e it)) mn
   | ECall _ args | ELCall _ args | EList args | EPList args => go_args pc args
   | _ => []
@@ -261,6 +276,8 @@ Fixpoint wf_e (en : env) (e : expr) {struct e} : Prop :=
   | EObj f pid x => fpid_ok f pid /\ wf_e en x
   | EMenu pid it mn => (pid < List.length MENUITEM_PROPERTIES)%nat /\ wf_e en it /\ wf_e en mn
   | EThe k i => (i < List.length (the_table k))%nat
+  | ETheN n => (n < List.length (e_names en))%nat /\ Z.of_nat n < 256
+  | EAcc n x => (n < List.length (e_names en))%nat /\ Z.of_nat n < 256 /\ wf_e en x
   end.
 Fixpoint wf_args (en : env) (l : list expr) : Prop := match l with [] => True | x :: r => wf_e en x /\ wf_args en r end.
 
